@@ -23,17 +23,38 @@ Transcribed (snapshot ef0888e + the `fix:` commit recorded in findings/C02.txt):
   `@sink()` under from-node #i records. Edges are FIFO and loss-free, so what sink #i records is the input edge's sequence filtered
   by `matches`: that composition is `TM.delivered` (the asynchrony of the pipeline is not modelled; the harness quiesces).
 
+* the from() OPTIONS (`FromNode.Point`, group_by.go `determineTagNames` / `computeTagNames`): a from-node that matches makes a
+  `ShallowCopy` of the message it received, sets the copy's time to `Truncate(truncate)` then `Round(round)` (each only when the
+  option is not 0; Go's `time.Truncate/Round` count from the year-1 epoch: `Kap.C16.goTruncate/goRound`, reused), and sets its
+  dimensions to `{ByName: groupByMeasurement, TagNames: groupBy(*) ? sorted tag keys of the point : sort.Strings(listed names)}`
+  (listed names are NOT intersected with the point's tags; duplicates stay). Name, database, retention policy, tags and fields are
+  never touched. The message it RECEIVED is the very pointer its sibling from-nodes and — `forkPoint` collects one pointer on every
+  edge — every other subscribed task get: `From.point` returns it too (unchanged, thanks to the copy; `From.pointInPlace` = the
+  same node without the copy, for the counterexample theorem). `chainEmits` = what from-node #i forwards (`@sink()` records it).
+
 Abstracted: the where-lambda's outcome is an oracle column of the point (`pass` = indices of the predicates that evaluate to true);
 lock atomicity (`forkPoint` under RLock, table updates under Lock) makes a history a sequence; a Collect on a closed edge (Go: panic
 `send on closed channel`) is recorded in `sentOnClosed`. Core Lean only (the compiled driver imports this file).
 -/
 import Kap.Basic
+import Kap.Model.C16
 namespace Kap.C02
 
 /-- `forkKey{Database, RetentionPolicy, Measurement}` -/
 abbrev Key := String × String × String
 
-/-- `pipeline.FromNode` restricted to its selection (`""` = property not set). `wh` = index of the where-lambda. -/
+/-- The OPTIONS of `pipeline.FromNode`: `Dimensions` (string dimensions in call order, `*`), `GroupByMeasurementFlag`, `Truncate`,
+`Round` (ns; 0 = not set). `validateDimensions` refuses `*` together with names and an empty name; the transcription of the run-time
+code below does not depend on that. -/
+structure FromOpts where
+  dims : List String := []
+  star : Bool := false
+  byName : Bool := false
+  truncate : Int := 0
+  round : Int := 0
+deriving DecidableEq, Repr, Inhabited
+
+/-- `pipeline.FromNode`: its selection (`""` = property not set; `wh` = index of the where-lambda) and its options. -/
 structure From where
   db : String := ""
   rp : String := ""
@@ -41,6 +62,7 @@ structure From where
   wh : Option Nat := none
   /-- `none`: child of the stream node (`stream|from()`); `some j`: child of from-node #`j` (`fromJ|from()`), `j` earlier in pipeline order -/
   parent : Option Nat := none
+  opts : FromOpts := {}
 deriving DecidableEq, Repr, Inhabited
 
 /-- `kapacitor.Task`: id, declared dbrps, the from-nodes in pipeline order. -/
@@ -50,20 +72,29 @@ structure TaskDef where
   froms : List From
 deriving DecidableEq, Repr, Inhabited
 
+/-- The part of a point the routing never looks at: time (Unix ns), tags (a Go map: keys distinct, no order), fields. -/
+structure Payload where
+  time : Int := 0
+  tags : List (String × String) := []
+  fields : List (String × Int) := []
+deriving DecidableEq, Repr, Inhabited
+
 /-- A point as handed to `WritePoints` (the harness gives every point a unique `id` field). -/
 structure RawPoint where
   id : Nat
   name : String
   pass : List Nat
+  pl : Payload := {}
 deriving DecidableEq, Repr, Inhabited
 
-/-- `edge.PointMessage` as created by `WritePoints`. -/
+/-- `edge.PointMessage` as created by `WritePoints` (its dimensions are `models.Dimensions{}`). -/
 structure Point where
   id : Nat
   db : String
   rp : String
   name : String
   pass : List Nat
+  pl : Payload := {}
 deriving DecidableEq, Repr, Inhabited
 
 /-- The input edge made by `newFork` for one `ExecutingTask`; `task` = the task whose stream node reads it. -/
@@ -199,7 +230,7 @@ def forkPointOld (s : TM) (p : Point) : TM :=
   (s.forks (p.db, p.rp, "")).foldl (fun s x => collect s x.2 p) s₁
 
 def mkPoint (db rp : String) (r : RawPoint) : Point :=
-  { id := r.id, db := db, rp := rp, name := r.name, pass := r.pass }
+  { id := r.id, db := db, rp := rp, name := r.name, pass := r.pass, pl := r.pl }
 
 /-- `WritePoints` followed by `runForking`. -/
 def writePointsWith (fp : TM → Point → TM) (s : TM) (db rp : String) (pts : List RawPoint) : TM :=
@@ -215,13 +246,59 @@ inductive Op where
   | write (db rp : String) (pts : List RawPoint)
 deriving Repr, Inhabited
 
-/-- `httpd.Handler.serveWriteLine`: one request body ↦ (HTTP status, the `WritePoints` call it makes, if any). A line that does not
-parse (`none`) makes `models.ParsePointsWithPrecision` fail: 400 and NOTHING of the body is written; a missing `db` parameter: 400;
-a missing `rp` parameter is passed on as "" (⇒ default retention policy). `precision` only scales the timestamps. -/
-def serveWriteLine (db rp : String) (lines : List (Option RawPoint)) : Nat × Option Op :=
-  if lines.any (·.isNone) then (400, none)
-  else if db == "" then (400, none)
-  else (204, some (.write db rp (lines.filterMap id)))
+/-- How the body of a `/write` request arrives (`httpd.Handler.serveWrite`). -/
+inductive BodyEnc where
+  | plain            -- no `Content-Encoding: gzip` header
+  | gzip             -- the header, and a well-formed gzip stream: the handler reads the decompressed bytes
+  | gzipBadHeader    -- the header, but the body is no gzip stream: `gzip.NewReader` fails ⇒ 400
+  | gzipTruncated    -- the header, a gzip stream cut short: `io.ReadAll` fails ⇒ 400
+deriving DecidableEq, Repr, Inhabited
+
+/-- One line of a line-protocol body. -/
+inductive Line where
+  | point (r : RawPoint) (ts : Int)   -- well-formed; `ts` = its integer time stamp, in the request's precision (`r.pl.time` is not used)
+  | bad                                -- does not parse
+  | skip                               -- blank line or `#` comment: no point, no error
+deriving Repr, Inhabited
+
+/-- `models.GetPrecisionMultiplier`: an unknown precision counts as nanoseconds. -/
+def precisionMult (precision : String) : Int :=
+  if precision == "u" then 1000
+  else if precision == "ms" then 1000000
+  else if precision == "s" then 1000000000
+  else if precision == "m" then 60000000000
+  else if precision == "h" then 3600000000000
+  else 1
+
+def minNanoTime : Int := -9223372036854775808 + 2
+def maxNanoTime : Int := 9223372036854775807 - 1
+
+/-- `models.SafeCalcTime` (`safeSignedMult` + `CheckTime`): `none` = "time outside range", the line fails. -/
+def safeCalcTime (ts : Int) (precision : String) : Option Int :=
+  let t := ts * precisionMult precision
+  if t < minNanoTime || t > maxNanoTime then none else some t
+
+/-- `models.ParsePointsWithPrecision` on one line: `none` = no point; `some none` = the line fails. -/
+def parseLine (precision : String) : Line → Option (Option RawPoint)
+  | .skip => none
+  | .bad => some none
+  | .point r ts => some ((safeCalcTime ts precision).map (fun t => { r with pl := { r.pl with time := t } }))
+
+/-- `httpd.Handler.serveWrite` + `serveWriteLine`: one request ↦ (HTTP status, the `WritePoints` call it makes, if any). A body that
+cannot be un-gzipped: 400. A line that fails (does not parse, or its time stamp × precision leaves the int64 ns range) makes
+`models.ParsePointsWithPrecision` return an error: 400 and NOTHING of the body is written; a missing `db` parameter: 400 (checked
+after parsing); a missing `rp` parameter is passed on as "" (⇒ default retention policy). `precision` "" counts as "n". The
+`consistency` parameter is never read (not an argument here): `WritePoints` always gets `ConsistencyLevelAll` and ignores it. -/
+def serveWrite (enc : BodyEnc) (db rp precision : String) (lines : List Line) : Nat × Option Op :=
+  match enc with
+  | .gzipBadHeader => (400, none)
+  | .gzipTruncated => (400, none)
+  | _ =>
+    let precision := if precision == "" then "n" else precision
+    let parsed := lines.filterMap (parseLine precision)
+    if parsed.any (·.isNone) then (400, none)
+    else if db == "" then (400, none)
+    else (204, some (.write db rp (parsed.filterMap id)))
 
 def stepWith (fp : TM → Point → TM) (s : TM) : Op → TM
   | .start d => startTask s d
@@ -255,8 +332,100 @@ def chainGets (froms : List From) : Nat → Nat → Point → Bool
 /-- Does the sink under from-node #`i` of the task reading the edge record `p`? -/
 def sinkGets (d : TaskDef) (i : Nat) (p : Point) : Bool := chainGets d.froms (i + 1) i p
 
+/-- What the sink under from-node #`i` of task `t` has recorded, seen through `g` (task definition, from-node index, point). -/
+def TM.deliveredWith {β : Type} (g : TaskDef → Nat → Point → β) (s : TM) (t : String) (i : Nat) : List β :=
+  s.log.filterMap (fun ep => if ep.1.task.id == t && sinkGets ep.1.task i ep.2 then some (g ep.1.task i ep.2) else none)
+
 /-- What the sink under from-node #`i` of task `t` has recorded: ids, in order. -/
-def TM.delivered (s : TM) (t : String) (i : Nat) : List Nat :=
-  s.log.filterMap (fun ep => if ep.1.task.id == t && sinkGets ep.1.task i ep.2 then some ep.2.id else none)
+def TM.delivered (s : TM) (t : String) (i : Nat) : List Nat := s.deliveredWith (fun _ _ p => p.id) t i
+
+/-! ### The from() options: what a forwarded point looks like -/
+
+/-- The fields of `edge.pointMessage` a from-node writes: `time` and `dimensions` (`models.Dimensions{ByName, TagNames}`). -/
+structure Msg where
+  time : Int
+  byName : Bool := false
+  tagNames : List String := []
+deriving DecidableEq, Repr, Inhabited
+
+/-- `sort.Strings` (bytewise order = code point order of UTF-8): insertion sort; the result is THE sorted permutation
+(theorem `sortStrings_sorted_perm`), which is all the Go code relies on. -/
+def insertSorted (a : String) : List String → List String
+  | [] => [a]
+  | b :: l => if a ≤ b then a :: b :: l else b :: insertSorted a l
+
+def sortStrings : List String → List String
+  | [] => []
+  | a :: l => insertSorted a (sortStrings l)
+
+/-- `determineTagNames(n.Dimensions, nil)`: (allDimensions, the string dimensions sorted). -/
+def FromOpts.determineTagNames (o : FromOpts) : Bool × List String := (o.star, sortStrings o.dims)
+
+/-- `computeTagNames(p.Tags(), allDimensions, tagNames, nil)`; `models.SortedKeys(tags)` = the keys, sorted. -/
+def computeTagNames (tags : List (String × String)) (allDimensions : Bool) (tagNames : List String) : List String :=
+  if allDimensions then sortStrings (tags.map (·.1)) else tagNames
+
+/-- The body of `FromNode.Point` after `ShallowCopy`: re-stamp the copy `c`. -/
+def From.stamp (f : From) (p : Point) (c : Msg) : Msg :=
+  let c := if f.opts.truncate != 0 then { c with time := C16.goTruncate c.time f.opts.truncate } else c
+  let c := if f.opts.round != 0 then { c with time := C16.goRound c.time f.opts.round } else c
+  { c with byName := f.opts.byName,
+           tagNames := computeTagNames p.pl.tags f.opts.determineTagNames.1 f.opts.determineTagNames.2 }
+
+/-- `FromNode.Point` on the received message `m` (of point `p`): (what is forwarded, the RECEIVED message afterwards). The received
+message is shared — the stream node (or the parent from-node) hands the same pointer to every child, `forkPoint` to every task. -/
+def From.point (f : From) (p : Point) (m : Msg) : Option Msg × Msg :=
+  if f.matches p then (some (f.stamp p m), m)     -- `p = p.ShallowCopy()`: the setters hit the copy
+  else (none, m)
+
+/-- The same node WITHOUT the `ShallowCopy` (not the code; kept for the counterexample theorem): the setters hit the shared message. -/
+def From.pointInPlace (f : From) (p : Point) (m : Msg) : Option Msg × Msg :=
+  if f.matches p then (some (f.stamp p m), f.stamp p m) else (none, m)
+
+/-- `for _, child := range n.outs { child.Collect(m) }`: the children receive the same message one after the other (the order is
+the scheduler's); returns what each child forwards and the shared message at the end. -/
+def fanOutWith (pt : From → Point → Msg → Option Msg × Msg) (children : List From) (p : Point) (m : Msg) :
+    List (Option Msg) × Msg :=
+  children.foldl (fun acc f => ((acc.1 ++ [(pt f p acc.2).1]), (pt f p acc.2).2)) ([], m)
+
+/-- The message `WritePoints` made for the point: its time, `models.Dimensions{}`. -/
+def Point.msg (p : Point) : Msg := { time := p.pl.time }
+
+/-- What from-node #`i` forwards for `p` (`none`: nothing): the stream node hands it `p.msg`, a parent from-node what it forwards. -/
+def chainEmits (froms : List From) : Nat → Nat → Point → Option Msg
+  | 0, _, _ => none
+  | fuel + 1, i, p =>
+    match froms[i]? with
+    | none => none
+    | some f =>
+      match f.parent with
+      | none => (f.point p p.msg).1
+      | some j =>
+        match chainEmits froms fuel j p with
+        | none => none
+        | some m => (f.point p m).1
+
+/-- What the `@sink()` under a from-node records of a point: everything a `PointMessage` has. -/
+structure Rec where
+  id : Nat
+  name : String
+  db : String
+  rp : String
+  tags : List (String × String)
+  fields : List (String × Int)
+  time : Int
+  byName : Bool
+  tagNames : List String
+deriving DecidableEq, Repr, Inhabited
+
+/-- point `p` as forwarded with the re-stamped part `m` -/
+def mkRec (p : Point) (m : Msg) : Rec :=
+  { id := p.id, name := p.name, db := p.db, rp := p.rp, tags := p.pl.tags, fields := p.pl.fields,
+    time := m.time, byName := m.byName, tagNames := m.tagNames }
+
+/-- What the sink under from-node #`i` of task `t` has recorded: the whole points, in order. -/
+def TM.deliveredPts (s : TM) (t : String) (i : Nat) : List Rec :=
+  s.log.filterMap (fun ep =>
+    if ep.1.task.id == t then (chainEmits ep.1.task.froms (i + 1) i ep.2).map (mkRec ep.2) else none)
 
 end Kap.C02
